@@ -534,8 +534,8 @@ pub(crate) fn break_recursive_bounds(
     /// inside a reference, array, slice or tuple. Not behind a raw pointer or a function pointer,
     /// in a `PhantomData`, a trait object or a projection, and not a type that only shares the name
     /// (`other::Name<T>`, `I::Name`). A path starting at a path keyword (`self::Name<T>`,
-    /// `crate::module::Name<T>`) is taken for the deriving type.
-    fn holds(ty: &syn::Type, ident: &syn::Ident) -> bool {
+    /// `crate::module::Name<T>`) inside another type is taken for the deriving type.
+    fn holds(ty: &syn::Type, ident: &syn::Ident, nested: bool) -> bool {
         match ty {
             syn::Type::Path(syn::TypePath { qself: None, path }) => {
                 let first = &path.segments[0].ident;
@@ -543,7 +543,9 @@ pub(crate) fn break_recursive_bounds(
                 if path.segments.len() == 1 && (*first == *ident || first == "Self") {
                     return true;
                 }
-                if path.segments.len() > 1
+                // (As the field's own type, it can only be another type of the same name.)
+                if nested
+                    && path.segments.len() > 1
                     && last.ident == *ident
                     && (first == "self" || first == "super" || first == "crate")
                 {
@@ -553,7 +555,7 @@ pub(crate) fn break_recursive_bounds(
                     && match &last.arguments {
                         syn::PathArguments::AngleBracketed(args) => {
                             args.args.iter().any(|arg| match arg {
-                                syn::GenericArgument::Type(ty) => holds(ty, ident),
+                                syn::GenericArgument::Type(ty) => holds(ty, ident, true),
                                 _ => false,
                             })
                         }
@@ -564,9 +566,9 @@ pub(crate) fn break_recursive_bounds(
             | syn::Type::Group(syn::TypeGroup { elem, .. })
             | syn::Type::Paren(syn::TypeParen { elem, .. })
             | syn::Type::Reference(syn::TypeReference { elem, .. })
-            | syn::Type::Slice(syn::TypeSlice { elem, .. }) => holds(elem, ident),
+            | syn::Type::Slice(syn::TypeSlice { elem, .. }) => holds(elem, ident, true),
             syn::Type::Tuple(syn::TypeTuple { elems, .. }) => {
-                elems.iter().any(|ty| holds(ty, ident))
+                elems.iter().any(|ty| holds(ty, ident, true))
             }
             _ => false,
         }
@@ -583,7 +585,7 @@ pub(crate) fn break_recursive_bounds(
                 if p.lifetimes.is_none()
                     && p.bounds.len() == 1
                     && p.bounds[0] == inferred
-                    && holds(&p.bounded_ty, ident) =>
+                    && holds(&p.bounded_ty, ident, false) =>
             {
                 let self_ident = format_ident!("Self");
                 type_params
